@@ -3,7 +3,7 @@
   Property theorems only; the inductive invariants live in Lemmas/Batcher.lean.
 
   OBLIGATIONS (audited by `check` with `#print axioms`):
-    capacity_bound, send_overflow_keeps_newest, send_no_overflow_appends, send_total, try_send_hands_back,
+    capacity_bound, send_overflow_keeps_newest, truncation_discards_exactly_capacity, send_no_overflow_appends, send_total, try_send_hands_back,
     send_or_wait_partial
 -/
 import EmitModel.Lemmas.Batcher
@@ -29,6 +29,27 @@ theorem send_overflow_keeps_newest (cfg : Cfg) (s : St) (x : Nat) (ho : s.isOpen
     (send cfg s x).accepted = s.accepted ++ [x] := by
   unfold send
   simp [hfull, ho, truncate, push]
+
+/-- Every truncation discards exactly `capacity` items (the queue is full exactly when it holds `capacity`), so the
+    number of discarded items is `capacity × queue_full_truncated` — the conservation law the multi-threaded soak
+    (stream `batcher_mt`) checks on real threads. -/
+theorem truncation_discards_exactly_capacity (cfg : Cfg) (hcap : 1 ≤ cfg.cap) (s : St) (h : Reachable cfg s) :
+    (∀ seg ∈ s.truncations, seg.length = cfg.cap) ∧
+    s.truncations.flatten.length = cfg.cap * s.mTruncated := by
+  have i : InvCap cfg s :=
+    invariant_of_step (Inv := InvCap cfg) ⟨by simp [init], by simp [init]⟩ (invCap_step cfg hcap) s h
+  refine ⟨i.segs, ?_⟩
+  rw [← (invPart_reachable cfg s h).truncCount, List.length_flatten]
+  have : ∀ (T : List (List Nat)), (∀ seg ∈ T, seg.length = cfg.cap) →
+      (T.map List.length).sum = cfg.cap * T.length := by
+    intro T
+    induction T with
+    | nil => simp
+    | cons a t ih =>
+      intro hT
+      simp only [List.map_cons, List.sum_cons, List.length_cons]
+      rw [ih (fun seg hs => hT seg (by simp [hs])), hT a (by simp), Nat.mul_succ]; omega
+  exact this _ i.segs
 
 /-- Below capacity nothing is discarded: the item is appended and the counter is unchanged. -/
 theorem send_no_overflow_appends (cfg : Cfg) (s : St) (x : Nat) (ho : s.isOpen = true)
